@@ -61,7 +61,7 @@ theorem match_once (s : CState) (now : Nat) (resp : Msg) :
     obtain ⟨at0, m0⟩ := pr
     dsimp only
     apply key
-    rw [(Lemmas.Expiry.updateSeg_store _ resp m0).1]
+    rw [(Lemmas.Expiry.updateSeg_store _ (track resp m0) m0).1]
     exact aget_adel_same _ _
 
 /-- … so a duplicate of that response correlates with nothing. -/
